@@ -82,4 +82,22 @@ def Ty.effHook (self other : Ty) : Bool :=
   | .prod .. => (match other with | .prod .. => true | _ => false)
   | _ => false
 
+/-! `symFrag`: the operand pairs on which `typeorder` is proved mirror-symmetric: never two *different
+    designs* of effective `__type_order__` hook facing each other (Union / Intersection / Exactly against each
+    other or against a value-dependent type), recursively through generic arguments, `tuple[...]` members and
+    dependent bounds -/
+mutual
+def symFrag : Ty → Ty → Bool
+  | .gen _ a1, .gen _ a2 => !a1.isEmpty && !a2.isEmpty && symFragL a1 a2
+  | .prod ps b1, .prod qs b2 => !ps.isEmpty && !qs.isEmpty && symFragL ps qs && symFrag b1 b2
+  | .lit _ b1, .lit _ b2 => symFrag b1 b2
+  | .lit _ b1, .fdep _ _ b2 => symFrag b1 b2
+  | .fdep _ _ b1, .lit _ b2 => symFrag b1 b2
+  | .fdep _ _ b1, .fdep _ _ b2 => symFrag b1 b2
+  | t1, t2 => !(t1.effHook t2 && t2.effHook t1)
+def symFragL : List Ty → List Ty → Bool
+  | a :: as, b :: bs => symFrag a b && symFragL as bs
+  | _, _ => true
+end
+
 end Ovld
